@@ -274,11 +274,11 @@ Proof.
     simpl; rewrite ?Ee, ?Ep; auto.
 Qed.
 
-Definition gone (s : ist) : bool := match i_disk s with IDGone _ => true | _ => false end.
-
 (* from every reachable state in which the preimage is known or the expiry
    height reached, 12 resolver steps without a further stop delete the
    contract *)
+End Inc.
+
 Ltac kill := try solve [ exfalso;
    repeat match goal with
    | H : _ /\ _ |- _ => destruct H
@@ -286,51 +286,48 @@ Ltac kill := try solve [ exfalso;
    | H : exists _, _ |- _ => destruct H
    end; (discriminate || congruence) ].
 
-Theorem inc_progress : forall h,
+Theorem inc_progress : forall (p : iparams) h,
   i_pre (irun p h) = true \/ i_exp (irun p h) = true ->
   gone (isteps p 12 (irun p h)) = true.
 Proof.
-  intros h He. destruct (iinv_run h) as [_ _ _ _ _ _ J7].
-  destruct (irun p h) as [d pc pre ex o r]. simpl in *.
-  destruct (ip_two p) eqn:Et; destruct pc; destruct d as [[|]|[|] [|]|b];
-    destruct pre; destruct ex; simpl in J7; kill;
-    unfold gone, isteps, istep, set_ipc; simpl; rewrite ?Et; simpl; reflexivity.
+  intros p h He. destruct (iinv_run p h) as [_ _ _ _ _ _ J7].
+  destruct (irun p h) as [d pc pre ex o r]. destruct p as [two k i c]. simpl in *.
+  destruct two; destruct pc; destruct d as [[|]|[|] [|]|b];
+    destruct pre; destruct ex; simpl in J7; kill; reflexivity.
 Qed.
 
 (* a preimage that reached the beacon before the expiry height is never lost,
    wherever the node was stopped: without further environment events the
    resolver claims the htlc *)
-Theorem inc_preimage_wins : forall h,
+Theorem inc_preimage_wins : forall (p : iparams) h,
   i_pre (irun p h) = true -> i_exp (irun p h) = false ->
   let s' := isteps p 12 (irun p h) in
   i_disk s' = IDGone true
   /\ In (OFinal (ip_idx p) true) (i_outs s') /\ incl (claim_reps p) (i_reps s')
   /\ ~ In (OFinal (ip_idx p) false) (i_outs s').
 Proof.
-  intros h Hp He s'.
+  intros p h Hp He s'.
   assert (Hd : i_disk s' = IDGone true).
-  { subst s'. destruct (iinv_run h) as [_ _ J3 _ J5 J6 J7].
+  { subst s'. destruct (iinv_run p h) as [_ _ J3 _ J5 J6 J7].
     assert (Hne : ~ on_contest_done (i_disk (irun p h))).
     { intros H. destruct (J3 H) as [A _].
       assert (i_exp (irun p h) = true).
       { apply J6; [destruct H as [H|H]; rewrite H; reflexivity|].
         left. intros E. rewrite E in A. destruct A. }
       congruence. }
-    destruct (irun p h) as [d pc pre ex o r]. simpl in *. subst pre ex.
-    clear J3 J6.
-    destruct (ip_two p) eqn:Et; destruct pc; destruct d as [[|]|[|] [|]|[|]];
+    destruct (irun p h) as [d pc pre ex o r]. destruct p as [two k i c]. simpl in *.
+    subst pre ex. clear J3 J6.
+    destruct two; destruct pc; destruct d as [[|]|[|] [|]|[|]];
       simpl in J7; kill;
       try (exfalso; apply Hne; unfold on_contest_done; auto; fail);
       try (exfalso; destruct (J5 _ _ eq_refl) as [S1 S2];
            try specialize (S1 eq_refl); try specialize (S2 eq_refl); congruence);
-      unfold isteps, istep, set_ipc; simpl; rewrite ?Et; simpl; reflexivity. }
+      reflexivity. }
   assert (Hreach : exists h', s' = irun p h').
   { exists (h ++ repeat IStep 12). subst s'. unfold irun. rewrite fold_left_app.
     generalize (fold_left (iev_step p) h iinit). intros s. simpl. reflexivity. }
-  destruct Hreach as [h' Eh]. destruct (iinv_run h') as [_ J2 _ J4 _ _ _].
+  destruct Hreach as [h' Eh]. destruct (iinv_run p h') as [_ J2 _ J4 _ _ _].
   rewrite <- Eh in *. rewrite Hd in *.
   destruct (J4 (or_intror eq_refl)) as [A B]. destruct (J2 eq_refl) as (C & _).
   repeat split; auto. intros H. apply C in H. discriminate.
 Qed.
-
-End Inc.
